@@ -82,6 +82,17 @@ def run(ctx, drv):
         n, dirs, constrained, eps, p = gen_problem(rng, lattice)
         a = gen_sol(rng, p, n, eps, constrained, lattice)
         b = gen_sol(rng, p, n, eps, constrained, lattice, near=a)
+        if k % 10 == 7 and n >= 2:
+            # two solutions inside ONE box whose sides differ by orders of magnitude (per-objective epsilons such as 0.125 and 8):
+            # which of them is nearer the box's ideal corner is decided by the distances in objective units
+            eps = [rng.choice([0.125, 8.0, 1e-3, 100.0, 0.5]) for _ in range(n)]
+            ks_ = [rng.randrange(-3, 4) for _ in range(n)]
+
+            def inside(j):
+                v = (ks_[j] + rng.choice([0.0625, 0.125, 0.25, 0.375, 0.5, 0.75, 0.9375])) * eps[j]
+                return -v if dirs[j] else v
+            cv_ = float(rng.choice([0, 1])) if constrained else 0.0
+            a, b = mk_sol(p, [inside(j) for j in range(n)], cv_), mk_sol(p, [inside(j) for j in range(n)], cv_)
         key = tuple(eps)
         dom = shared.setdefault(key, C.EpsilonDominance(list(eps))) if k % 2 else C.EpsilonDominance(list(eps) if len(eps) > 1 or k % 4 else eps[0])
         r = call(dom.compare, a, b)
@@ -123,7 +134,9 @@ def run(ctx, drv):
                     # the statement demands a preference when one of the two is nearer the corner; on an exact tie it leaves the
                     # answer open (the archive clauses are judged on the histories)
                     ctx.fail("zero-in-same-box", inp, r, "-1 or 1", "core.EpsilonDominance.compare")
-                elif lattice and da is not None and da != db:
+                elif da is not None and da != db and (lattice or (abs(da - db) > Fraction(1, 10 ** 6) * max(da, db) and Fraction(1, 10 ** 200) < max(da, db) < 10 ** 200)):
+                    # (off the lattice the code's distances are rounded doubles: judged only when the exact distances differ clearly and
+                    # their squares neither underflow nor overflow)
                     exp = -1 if da < db else 1
                     if r != exp:
                         ctx.fail("corner-preference-wrong", dict(inp, dist=[str(da), str(db)]), r, exp, "core.EpsilonDominance.compare")
